@@ -1,9 +1,11 @@
 (* C09 — lemmas about the string decoder model (dec_string) against JsonStd. *)
 From Coq Require Import List NArith ZArith Bool Lia.
+From Coq Require Import ZifyN ZifyNat ZifyBool.
 From Verif Require Import Gen.Consts Base.Outcome C09.Spec C09.Model.
 Import ListNotations.
 Open Scope bool_scope.
 Open Scope N_scope.
+Ltac Zify.zify_post_hook ::= Z.div_mod_to_equations.
 
 (* the class of F09-2r: a surrogate escape immediately followed by a \u escape with
    which it does not form a valid pair *)
@@ -27,8 +29,267 @@ Definition unescape_full_statement : Prop :=
 
 Lemma unescape_refuted :
   exists (l : list item) (tl : list N),
-    forallb wf_item l = true /\ dec_string (render_lit l ++ tl) <> Ok (denote l, tl).
+    forallb wf_item l = true /\ nopin l = false /\ dec_string (render_lit l ++ tl) <> Ok (denote l, tl).
 Proof.
   exists [U 100 56 48 48; U 48 48 52 49], [].
-  split; [reflexivity|]. vm_compute. discriminate.
+  split; [reflexivity|]. split; [reflexivity|]. vm_compute. discriminate.
+Qed.
+
+(* ---------- plain bytes and asis ---------- *)
+Definition plain (b : N) : bool := negb (b =? 34) && negb (b =? 92).
+
+Lemma asis_plain : forall p s, forallb plain p = true ->
+  asis (p ++ s) = match asis s with Some (bs, c, r) => Some (p ++ bs, c, r) | None => None end.
+Proof.
+  induction p as [|b p IH]; intros s H; simpl.
+  - destruct (asis s) as [[[bs c] r]|]; reflexivity.
+  - simpl in H. apply andb_true_iff in H. destruct H as [Hb Hp].
+    unfold plain in Hb. apply andb_true_iff in Hb. destruct Hb as [H1 H2].
+    apply negb_true_iff in H1. apply negb_true_iff in H2. rewrite H1, H2. simpl.
+    rewrite (IH s Hp). destruct (asis s) as [[[bs c] r]|]; reflexivity.
+Qed.
+
+Lemma utf8_plain : forall cp, wf_item (Ch cp) = true -> forallb plain (utf8_encode cp) = true.
+Proof.
+  intros cp H. simpl in H.
+  repeat (apply andb_true_iff in H; destruct H as [H ?]).
+  unfold utf8_encode.
+  destruct (cp <? 128) eqn:E1; [cbn [forallb]; unfold plain; rewrite H1, H0; reflexivity|].
+  destruct (cp <? 2048) eqn:E2; [|destruct (cp <? 65536) eqn:E3]; cbn [forallb]; unfold plain;
+    repeat (apply andb_true_iff; split); try reflexivity; apply negb_true_iff; apply N.eqb_neq; lia.
+Qed.
+
+Lemma utf8_nonempty : forall cp, utf8_encode cp <> [].
+Proof.
+  intros cp. unfold utf8_encode.
+  destruct (cp <? 128); [discriminate|]. destruct (cp <? 2048); [discriminate|].
+  destruct (cp <? 65536); discriminate.
+Qed.
+
+(* ---------- scanning over a run of plain bytes ---------- *)
+Lemma scan_plain : forall k p s buf hi, p <> [] -> forallb plain p = true ->
+  dq_scan k buf hi (p ++ s) = dq_scan k ((if negb (hi =? 0) then buf ++ FFFD else buf) ++ p) 0 s.
+Proof.
+  intros k p s buf hi Hne Hp. unfold dq_scan. rewrite (asis_plain p s Hp).
+  destruct (asis s) as [[[bs c] r]|]; [|reflexivity].
+  assert (Hn : is_nil (p ++ bs) = false) by (destruct p; [congruence|reflexivity]).
+  rewrite Hn. change (0 =? 0) with true. cbn [negb orb andb]. rewrite andb_true_r.
+  rewrite <- !app_assoc.
+  destruct (c =? 34); [reflexivity|].
+  destruct (negb (is_nil bs) || false); reflexivity.
+Qed.
+
+(* ---------- hex digits ---------- *)
+Lemma slashU1_hex : forall r c, is_hex c = true -> slashU1 (Some r) c = Some (r * 16 + hexval c).
+Proof.
+  intros r c H. unfold slashU1, hexval, is_hex in *.
+  change (Z.to_N jsonU4Chk2) with 48. change (Z.to_N jsonU4Chk1) with 87. change (Z.to_N jsonU4Chk0) with 55.
+  destruct (48 <=? c) eqn:A1; destruct (c <=? 57) eqn:A2; simpl in *; try reflexivity.
+  - destruct (97 <=? c) eqn:B1; destruct (c <=? 102) eqn:B2; simpl in *.
+    + replace (c <=? 70) with false by (symmetry; apply N.leb_gt; lia). reflexivity.
+    + destruct (65 <=? c) eqn:C1; destruct (c <=? 70) eqn:C2; simpl in *; try discriminate; lia.
+    + destruct (65 <=? c) eqn:C1; destruct (c <=? 70) eqn:C2; simpl in *; try discriminate. reflexivity.
+    + destruct (65 <=? c) eqn:C1; destruct (c <=? 70) eqn:C2; simpl in *; try discriminate. reflexivity.
+  - destruct (97 <=? c) eqn:B1; destruct (c <=? 102) eqn:B2; simpl in *; try lia;
+    destruct (65 <=? c) eqn:C1; destruct (c <=? 70) eqn:C2; simpl in *; try discriminate; try lia.
+  - destruct (97 <=? c) eqn:B1; destruct (c <=? 102) eqn:B2; simpl in *; try lia;
+    destruct (65 <=? c) eqn:C1; destruct (c <=? 70) eqn:C2; simpl in *; try discriminate; try lia.
+Qed.
+
+Lemma slashU_hex : forall a b c d, wf_item (U a b c d) = true -> jsonSlashURune a b c d = u16 a b c d.
+Proof.
+  intros a b c d H. simpl in H.
+  repeat (apply andb_true_iff in H; destruct H as [H ?]).
+  unfold jsonSlashURune, u16.
+  rewrite (slashU1_hex 0 a H), (slashU1_hex _ b H2), (slashU1_hex _ c H1), (slashU1_hex _ d H0).
+  reflexivity.
+Qed.
+
+Lemma hexval_lt : forall c, is_hex c = true -> hexval c < 16.
+Proof.
+  intros c H. unfold is_hex, hexval in *.
+  destruct (c <=? 57) eqn:A; destruct (c <=? 70) eqn:B; lia.
+Qed.
+
+Lemma u16_lt : forall a b c d, wf_item (U a b c d) = true -> u16 a b c d < 65536.
+Proof.
+  intros a b c d H. simpl in H.
+  repeat (apply andb_true_iff in H; destruct H as [H ?]).
+  pose proof (hexval_lt a H). pose proof (hexval_lt b H2). pose proof (hexval_lt c H1). pose proof (hexval_lt d H0).
+  unfold u16. lia.
+Qed.
+
+Lemma pair_scalar : forall h l, is_hi h = true -> is_lo l = true -> scalar (pair_cp h l) = true.
+Proof. intros h l Hh Hl. unfold is_hi, is_lo, scalar, pair_cp in *. lia. Qed.
+
+Lemma nonsur_scalar : forall u, u < 65536 -> is_sur u = false -> scalar u = true.
+Proof. intros u H Hs. unfold is_sur, scalar in *. lia. Qed.
+
+Lemma sur_split : forall u, is_sur u = is_hi u || is_lo u.
+Proof. intros u. unfold is_sur, is_hi, is_lo. lia. Qed.
+
+Lemma hi_not_lo : forall u, is_hi u = true -> is_lo u = false.
+Proof. intros u. unfold is_hi, is_lo. lia. Qed.
+
+Lemma sur_nonzero : forall u, is_sur u = true -> (u =? 0) = false.
+Proof. intros u. unfold is_sur. lia. Qed.
+
+(* ---------- what the decoder owes for a pending surrogate ---------- *)
+Definition dpend (hi : N) (l : list item) : list N :=
+  if hi =? 0 then denote l
+  else match l with
+       | U a b c d :: r => utf8_encode (pair_cp hi (u16 a b c d)) ++ denote r
+       | _ => FFFD ++ denote l
+       end.
+
+Definition gpend (hi : N) (l : list item) : bool :=
+  if hi =? 0 then nopin l
+  else is_sur hi && match l with
+                    | U a b c d :: r => is_hi hi && is_lo (u16 a b c d) && nopin r
+                    | _ => nopin l
+                    end.
+
+Lemma denote_sur : forall a b c d r,
+  is_sur (u16 a b c d) = true -> nopin (U a b c d :: r) = true ->
+  denote (U a b c d :: r) = dpend (u16 a b c d) r /\ gpend (u16 a b c d) r = true.
+Proof.
+  intros a b c d r Hs Hn. unfold dpend, gpend. rewrite (sur_nonzero _ Hs). rewrite Hs.
+  simpl in Hn. rewrite Hs in Hn. simpl denote.
+  destruct r as [|[cp|e|a' b' c' d'] r'].
+  - split; [|exact Hn]. rewrite sur_split in Hs.
+    destruct (is_hi (u16 a b c d)); [reflexivity|]. simpl in Hs. rewrite Hs. reflexivity.
+  - split; [|exact Hn]. rewrite sur_split in Hs.
+    destruct (is_hi (u16 a b c d)); [reflexivity|]. simpl in Hs. rewrite Hs. reflexivity.
+  - split; [|exact Hn]. rewrite sur_split in Hs.
+    destruct (is_hi (u16 a b c d)); [reflexivity|]. simpl in Hs. rewrite Hs. reflexivity.
+  - apply andb_true_iff in Hn. destruct Hn as [Hn Hr]. apply andb_true_iff in Hn. destruct Hn as [Hh Hl].
+    rewrite Hh, Hl. split; [reflexivity|]. simpl. exact Hr.
+Qed.
+
+Lemma esc_step : forall c buf hi s, is_esc c = true ->
+  dq_step buf hi (c :: s) = Ok ((if negb (hi =? 0) then buf ++ FFFD else buf) ++ [esc_val c], 0, s).
+Proof.
+  intros c buf hi s H. unfold is_esc in H.
+  repeat (apply orb_true_iff in H; destruct H as [H|H]); apply N.eqb_eq in H; subst c;
+    unfold dq_step, esc_val; simpl; rewrite andb_true_r; reflexivity.
+Qed.
+
+Lemma render_cons : forall i l s, render_items (i :: l) ++ s = render_item i ++ render_items l ++ s.
+Proof. intros. unfold render_items. simpl. rewrite <- app_assoc. reflexivity. Qed.
+
+(* ---------- the main induction ---------- *)
+Lemma scan_items : forall l f buf hi tl,
+  forallb wf_item l = true -> gpend hi l = true -> (length l <= f)%nat ->
+  dq_scan (dq_loop f) buf hi (render_items l ++ 34 :: tl) = Ok (buf ++ dpend hi l, tl).
+Proof.
+  induction l as [|i l IH]; intros f buf hi tl Hwf Hg Hf.
+  - (* closing quote *)
+    unfold dq_scan, dpend. simpl. rewrite app_nil_r.
+    destruct (hi =? 0); simpl; [rewrite app_nil_r|]; reflexivity.
+  - simpl in Hwf. apply andb_true_iff in Hwf. destruct Hwf as [Hi Hwf].
+    rewrite render_cons.
+    destruct i as [cp|c|a b c d].
+    + (* unescaped character *)
+      simpl render_item.
+      rewrite (scan_plain _ _ _ _ _ (utf8_nonempty cp) (utf8_plain cp Hi)).
+      assert (Hg0 : gpend 0 l = true).
+      { unfold gpend in *. simpl. destruct (hi =? 0); [exact Hg|].
+        apply andb_true_iff in Hg. destruct Hg as [_ Hg]. exact Hg. }
+      rewrite (IH f _ 0 tl Hwf Hg0) by (simpl in Hf; lia).
+      f_equal. f_equal. unfold dpend. simpl (0 =? 0). cbv iota.
+      destruct (hi =? 0); simpl negb; cbv iota.
+      * rewrite <- app_assoc. reflexivity.
+      * rewrite <- !app_assoc. reflexivity.
+    + (* two-character escape *)
+      simpl render_item. simpl app.
+      unfold dq_scan at 1. simpl asis. cbv iota beta. simpl is_nil. simpl negb.
+      change (92 =? 34) with false. rewrite orb_false_r. simpl orb. rewrite andb_false_r. cbv iota.
+      rewrite app_nil_r.
+      destruct f as [|f]; [simpl in Hf; lia|].
+      cbn [dq_loop]. rewrite (esc_step c buf hi _ Hi).
+      assert (Hg0 : gpend 0 l = true).
+      { unfold gpend in *. simpl. destruct (hi =? 0); [exact Hg|].
+        apply andb_true_iff in Hg. destruct Hg as [_ Hg]. exact Hg. }
+      rewrite (IH f _ 0 tl Hwf Hg0) by (simpl in Hf; lia).
+      f_equal. f_equal. unfold dpend. simpl (0 =? 0). cbv iota.
+      destruct (hi =? 0); simpl negb; cbv iota; simpl denote.
+      * rewrite <- app_assoc. reflexivity.
+      * rewrite <- !app_assoc. reflexivity.
+    + (* \u escape *)
+      simpl render_item. simpl app.
+      unfold dq_scan at 1. simpl asis. cbv iota beta. simpl is_nil. simpl negb.
+      change (92 =? 34) with false. rewrite orb_false_r. simpl orb. rewrite andb_false_r. cbv iota.
+      rewrite app_nil_r.
+      destruct f as [|f]; [simpl in Hf; lia|].
+      cbn [dq_loop]. unfold dq_step. change (117 =? 117) with true.
+      simpl negb. rewrite andb_false_r. cbv iota.
+      change ((117 =? 34) || (117 =? 92) || (117 =? 47) || (117 =? 39)) with false.
+      change (117 =? 98) with false. change (117 =? 102) with false. change (117 =? 110) with false.
+      change (117 =? 114) with false. change (117 =? 116) with false. cbv iota.
+      rewrite (slashU_hex a b c d Hi).
+      pose proof (u16_lt a b c d Hi) as Hlt.
+      unfold gpend in Hg. unfold dpend at 1.
+      destruct (hi =? 0) eqn:Hhi; simpl negb; cbv iota.
+      * (* nothing pending *)
+        destruct (is_sur (u16 a b c d)) eqn:Hs.
+        -- destruct (denote_sur a b c d l Hs Hg) as [Hd Hg'].
+           rewrite (IH f buf _ tl Hwf Hg') by (simpl in Hf; lia). rewrite Hd. reflexivity.
+        -- assert (Hg0 : gpend 0 l = true).
+           { unfold gpend. simpl. simpl in Hg. rewrite Hs in Hg. exact Hg. }
+           rewrite (IH f _ 0 tl Hwf Hg0) by (simpl in Hf; lia).
+           unfold encodeRune. rewrite (nonsur_scalar _ Hlt Hs).
+           f_equal. f_equal. unfold dpend. simpl (0 =? 0). cbv iota.
+           simpl denote. rewrite sur_split in Hs. apply orb_false_iff in Hs. destruct Hs as [Hh Hl].
+           rewrite Hh, Hl. rewrite <- app_assoc. reflexivity.
+      * (* a surrogate is pending: the guard says they pair *)
+        apply andb_true_iff in Hg. destruct Hg as [_ Hg].
+        apply andb_true_iff in Hg. destruct Hg as [Hg Hn]. apply andb_true_iff in Hg. destruct Hg as [Hh Hl].
+        unfold utf16_decode. rewrite Hh, Hl. simpl andb. cbv iota.
+        unfold encodeRune. rewrite (pair_scalar _ _ Hh Hl).
+        assert (Hg0 : gpend 0 l = true) by (unfold gpend; simpl; exact Hn).
+        rewrite (IH f _ 0 tl Hwf Hg0) by (simpl in Hf; lia).
+        f_equal. f_equal. unfold dpend. simpl (0 =? 0). cbv iota.
+        rewrite <- app_assoc. reflexivity.
+Qed.
+
+Lemma render_length : forall l, (length l <= length (render_items l))%nat.
+Proof.
+  induction l as [|i l IH]; simpl; [lia|].
+  unfold render_items in *. simpl. rewrite app_length.
+  assert (1 <= length (render_item i))%nat.
+  { destruct i; simpl; try lia. pose proof (utf8_nonempty cp). destruct (utf8_encode cp); [congruence|simpl; lia]. }
+  lia.
+Qed.
+
+(* the decoder returns the denoted string and stops right after the closing quote *)
+Lemma unescape_lemma : forall (l : list item) (tl : list N),
+  forallb wf_item l = true -> nopin l = true ->
+  dec_string (render_lit l ++ tl) = Ok (denote l, tl).
+Proof.
+  intros l tl Hwf Hn. unfold render_lit. simpl app. unfold dec_string. change (34 =? 34) with true. cbv iota.
+  rewrite <- app_assoc. simpl app.
+  rewrite (scan_items l _ [] 0 tl Hwf).
+  - reflexivity.
+  - unfold gpend. simpl. exact Hn.
+  - rewrite app_length. pose proof (render_length l). simpl. lia.
+Qed.
+
+(* consumed bytes = exactly the literal *)
+Lemma unescape_consumes : forall (l : list item) (tl : list N),
+  forallb wf_item l = true -> nopin l = true ->
+  exists d, dec_string (render_lit l ++ tl) = Ok (d, tl) /\
+            (length (render_lit l ++ tl) - length tl = length (render_lit l))%nat.
+Proof.
+  intros l tl Hwf Hn. exists (denote l). split; [apply unescape_lemma; assumption|].
+  rewrite app_length. lia.
+Qed.
+
+(* ---------- the executable reference reads back what it renders ---------- *)
+Lemma eqbl_refl : forall a, eqbl a a = true.
+Proof. induction a as [|x a IH]; simpl; [reflexivity|]. rewrite N.eqb_refl. exact IH. Qed.
+
+Lemma eqbl_eq : forall a b, eqbl a b = true -> a = b.
+Proof.
+  induction a as [|x a IH]; destruct b as [|y b]; simpl; intros H; try discriminate; [reflexivity|].
+  apply andb_true_iff in H. destruct H as [H1 H2]. apply N.eqb_eq in H1. subst. f_equal. apply IH. exact H2.
 Qed.
